@@ -320,12 +320,10 @@ impl WmoWriter {
             return Ok(());
         }
 
-        // Determine material size based on version
-        let material_size = if target_version >= WmoVersion::Mop {
-            64
-        } else {
-            40
-        };
+        // A material record is 64 bytes in every version: 36 bytes of fields plus 28 bytes
+        // of padding, which is what is written below and what the parser reads
+        let _ = target_version;
+        let material_size = 64;
 
         let header = ChunkHeader {
             id: chunks::MOMT,
@@ -414,6 +412,9 @@ impl WmoWriter {
 
         header.write(writer)?;
 
+        // Offset of each group's name in the MOGN chunk, in the order the names are written
+        let mut name_offset = 0u32;
+
         for group in groups {
             writer.write_u32_le(group.flags.bits())?;
 
@@ -426,8 +427,8 @@ impl WmoWriter {
             writer.write_f32_le(group.bounding_box.max.z)?;
 
             // Write name offset in MOGN chunk
-            // This is a simplification - in a real implementation, you'd need to calculate actual offsets
-            writer.write_u32_le(0)?; // Placeholder
+            writer.write_u32_le(name_offset)?;
+            name_offset += group.name.len() as u32 + 1; // +1 for null terminator
         }
 
         Ok(())
@@ -977,7 +978,8 @@ impl WmoWriter {
             0
         };
 
-        let total_size = 32 + vertices_size + tile_flags_size; // 32 bytes for header
+        // 40 bytes for header: type, flags, width, height (4 x u32) and the bounding box (6 x f32)
+        let total_size = 40 + vertices_size + tile_flags_size;
 
         let header = ChunkHeader {
             id: chunks::MLIQ,
